@@ -254,7 +254,16 @@ def main(argv=None):
         theorems, discharged, problems = [], [], ["lean skipped (--no-lean)"]
     else:
         try:
-            theorems, discharged, problems = lean_check(pid, tier, log)
+            # checks of different properties may run concurrently: the translate/build/audit phase is serialised
+            import fcntl
+
+            os.makedirs(os.path.join(core.LEAN_DIR, ".lake"), exist_ok=True)
+            with open(os.path.join(core.LEAN_DIR, ".lake", "verif.lock"), "w") as lk:
+                fcntl.flock(lk, fcntl.LOCK_EX)
+                try:
+                    theorems, discharged, problems = lean_check(pid, tier, log)
+                finally:
+                    fcntl.flock(lk, fcntl.LOCK_UN)
         except subprocess.TimeoutExpired:
             print("INFRA: lake timed out")
             return 2
